@@ -93,252 +93,628 @@ theorem gw_constant_two (n : Nat) (d1 d2 : Int) (v1 v2 : α) (i : Nat) (hi : i <
     exact congrArg some (gw_constant_first (Int.ofNat i) d1 v1 [(d2, v2)] none
       (by intro q hq; simp at hq; subst hq; simpa using h2))
 
-/-! ## "Variable" -/
+/-! ## "Variable"
 
-theorem fillGaps_length (pts : List (α × α)) (k : Nat) (seen : Bool) (s : List (Option α)) :
-    (fillGaps pts k seen s).length = s.length := by
-  induction s generalizing k seen with
-  | nil => rfl
-  | cons x xs ih => cases x <;> simp [fillGaps, ih]
+The series is `gwVarAt i (sortByDate (dedupLast obs))` on day `i`: de-duplicate (last row of a date
+wins), sort by date, interpolate linearly in time; `none` (`NaN`) before the first observation, the
+last depth after the last one. -/
 
-/-- observed entries are kept exactly. -/
-theorem fillGaps_some (pts : List (α × α)) (k : Nat) (seen : Bool) (s : List (Option α)) (i : Nat)
-    (v : α) (h : s[i]? = some (some v)) : (fillGaps pts k seen s)[i]? = some (some v) := by
-  induction s generalizing k seen i with
-  | nil => simp at h
-  | cons x xs ih =>
-    cases i with
-    | zero =>
-      simp only [List.getElem?_cons_zero, Option.some.injEq] at h
-      subst h; simp [fillGaps]
-    | succ i =>
-      simp only [List.getElem?_cons_succ] at h
-      cases x <;> simp only [fillGaps, List.getElem?_cons_succ] <;> exact ih _ _ i h
+/-! ### `dedupLast` -/
 
-/-- days before the first observation stay `NaN`. -/
-theorem fillGaps_leading (pts : List (α × α)) (k : Nat) (s : List (Option α)) (i : Nat)
-    (h : ∀ j, j ≤ i → s[j]? = some none) : (fillGaps pts k false s)[i]? = some none := by
-  induction s generalizing k i with
-  | nil => have := h 0 (Nat.zero_le _); simp at this
-  | cons x xs ih =>
-    have h0 := h 0 (Nat.zero_le _)
-    simp only [List.getElem?_cons_zero, Option.some.injEq] at h0
-    subst h0
-    cases i with
-    | zero => simp [fillGaps]
-    | succ i =>
-      simp only [fillGaps, List.getElem?_cons_succ]
-      exact ih (k + 1) i (fun j hj => by simpa using h (j + 1) (by omega))
+/-- every row kept by `dedupLast` is a row of the table. -/
+theorem dedupLast_subset (obs : List (Int × α)) : ∀ q ∈ dedupLast obs, q ∈ obs := by
+  induction obs with
+  | nil => intro q hq; simp [dedupLast] at hq
+  | cons p rest ih =>
+    obtain ⟨d, v⟩ := p
+    intro q hq
+    unfold dedupLast at hq
+    split at hq
+    · exact List.mem_cons_of_mem _ (ih q hq)
+    · rcases List.mem_cons.mp hq with rfl | hq
+      · exact List.mem_cons_self
+      · exact List.mem_cons_of_mem _ (ih q hq)
 
-/-- a missing day after some observation is `np.interp` of its position over the observed
-positions. -/
-theorem fillGaps_gap (pts : List (α × α)) (k : Nat) (seen : Bool) (s : List (Option α)) (i : Nat)
-    (h : s[i]? = some none)
-    (hseen : seen = true ∨ ∃ j, j < i ∧ ∃ v, s[j]? = some (some v)) :
-    (fillGaps pts k seen s)[i]? = some (interp (((k + i : Nat) : α)) pts) := by
-  induction s generalizing k seen i with
-  | nil => simp at h
-  | cons x xs ih =>
-    cases i with
-    | zero =>
-      simp only [List.getElem?_cons_zero, Option.some.injEq] at h
-      subst h
-      have hs : seen = true := by
-        rcases hseen with hs | ⟨j, hj, _⟩
-        · exact hs
-        · omega
-      simp [fillGaps, hs]
-    | succ i =>
-      simp only [List.getElem?_cons_succ] at h
-      have e : k + (i + 1) = k + 1 + i := by omega
+/-- every date of the table survives `dedupLast`. -/
+theorem dedupLast_date_mem (obs : List (Int × α)) :
+    ∀ q ∈ obs, ∃ q' ∈ dedupLast obs, q'.1 = q.1 := by
+  induction obs with
+  | nil => intro q hq; simp at hq
+  | cons p rest ih =>
+    obtain ⟨d, v⟩ := p
+    intro q hq
+    by_cases hany : rest.any (fun q => decide (q.1 = d)) = true
+    · have e : dedupLast ((d, v) :: rest) = dedupLast rest := by simp only [dedupLast, hany, if_true]
       rw [e]
-      cases x with
-      | some w =>
-        simp only [fillGaps, List.getElem?_cons_succ]
-        exact ih (k + 1) true i h (Or.inl rfl)
-      | none =>
-        simp only [fillGaps, List.getElem?_cons_succ]
-        apply ih (k + 1) seen i h
-        rcases hseen with hs | ⟨j, hj, v, hv⟩
-        · exact Or.inl hs
-        · cases j with
-          | zero => simp at hv
-          | succ j => exact Or.inr ⟨j, by omega, v, by simpa using hv⟩
+      rcases List.mem_cons.mp hq with rfl | hq
+      · obtain ⟨r, hr, hrd⟩ := List.any_eq_true.mp hany
+        obtain ⟨q', hq', e'⟩ := ih r hr
+        exact ⟨q', hq', by rw [e']; simpa using hrd⟩
+      · exact ih q hq
+    · have e : dedupLast ((d, v) :: rest) = (d, v) :: dedupLast rest := by
+        simp only [dedupLast, hany, if_false, Bool.false_eq_true]
+      rw [e]
+      rcases List.mem_cons.mp hq with rfl | hq
+      · exact ⟨(d, v), List.mem_cons_self, rfl⟩
+      · obtain ⟨q', hq', e'⟩ := ih q hq
+        exact ⟨q', List.mem_cons_of_mem _ hq', e'⟩
 
-theorem validPts_append (k : Nat) (s1 s2 : List (Option α)) :
-    validPts k (s1 ++ s2) = validPts k s1 ++ validPts (k + s1.length) s2 := by
-  induction s1 generalizing k with
-  | nil => simp [validPts]
-  | cons x xs ih =>
-    cases x with
-    | none => simp only [List.cons_append, validPts, ih, List.length_cons]; congr 2; omega
-    | some v =>
-      simp only [List.cons_append, validPts, ih, List.length_cons]
-      congr 3; omega
+/-- after `dedupLast` the dates are pairwise distinct. -/
+theorem dedupLast_pairwise (obs : List (Int × α)) :
+    (dedupLast obs).Pairwise (fun a b => a.1 ≠ b.1) := by
+  induction obs with
+  | nil => simp [dedupLast]
+  | cons p rest ih =>
+    obtain ⟨d, v⟩ := p
+    unfold dedupLast
+    split
+    · exact ih
+    · rename_i hany
+      refine List.pairwise_cons.mpr ⟨?_, ih⟩
+      intro q hq hdq
+      apply hany
+      exact List.any_eq_true.mpr ⟨q, dedupLast_subset rest q hq, by simpa using hdq.symm⟩
 
-theorem validPts_nones (k m : Nat) : validPts k (List.replicate m (none : Option α)) = [] := by
-  induction m generalizing k with
-  | zero => rfl
-  | succ m ih => simp [List.replicate_succ, validPts, ih]
+/-- **the last row of a date wins**: `(d, v)` is kept exactly when it is a row of the table that no
+later row with the same date follows. -/
+theorem dedupLast_mem_iff (obs : List (Int × α)) (d : Int) (v : α) :
+    (d, v) ∈ dedupLast obs ↔
+      ∃ pre post, obs = pre ++ (d, v) :: post ∧ ∀ q ∈ post, q.1 ≠ d := by
+  induction obs with
+  | nil => simp [dedupLast]
+  | cons p rest ih =>
+    obtain ⟨d', v'⟩ := p
+    by_cases hany : rest.any (fun q => decide (q.1 = d')) = true
+    · have e : dedupLast ((d', v') :: rest) = dedupLast rest := by
+        simp only [dedupLast, hany, if_true]
+      rw [e, ih]
+      constructor
+      · rintro ⟨pre, post, rfl, hpost⟩
+        exact ⟨(d', v') :: pre, post, rfl, hpost⟩
+      · rintro ⟨pre, post, hobs, hpost⟩
+        cases pre with
+        | nil =>
+          cases hobs
+          obtain ⟨r, hr, hrd⟩ := List.any_eq_true.mp hany
+          exact absurd (hpost r hr) (by simpa using hrd)
+        | cons p' pre' =>
+          simp only [List.cons_append, List.cons.injEq] at hobs
+          exact ⟨pre', post, hobs.2, hpost⟩
+    · have e : dedupLast ((d', v') :: rest) = (d', v') :: dedupLast rest := by
+        simp only [dedupLast, hany, if_false, Bool.false_eq_true]
+      rw [e, List.mem_cons, ih]
+      constructor
+      · rintro (h | ⟨pre, post, rfl, hpost⟩)
+        · simp only [Prod.mk.injEq] at h
+          obtain ⟨rfl, rfl⟩ := h
+          refine ⟨[], rest, rfl, ?_⟩
+          intro q hq hqd
+          exact hany (List.any_eq_true.mpr ⟨q, hq, by simpa using hqd⟩)
+        · exact ⟨(d', v') :: pre, post, rfl, hpost⟩
+      · rintro ⟨pre, post, hobs, hpost⟩
+        cases pre with
+        | nil =>
+          cases hobs
+          exact Or.inl rfl
+        | cons p' pre' =>
+          simp only [List.cons_append, List.cons.injEq] at hobs
+          exact Or.inr ⟨pre', post, hobs.2, hpost⟩
 
-theorem validPts_pos (k : Nat) (s : List (Option α)) :
-    ∀ p ∈ validPts k s, ∃ j : Nat, j < k + s.length ∧ p.1 = (j : α) := by
-  induction s generalizing k with
-  | nil => simp [validPts]
-  | cons x xs ih =>
-    intro p hp
-    cases x with
-    | none =>
-      simp only [validPts] at hp
-      obtain ⟨j, hj, e⟩ := ih (k + 1) p hp
-      exact ⟨j, by simp only [List.length_cons]; omega, e⟩
-    | some v =>
-      simp only [validPts, List.mem_cons] at hp
-      rcases hp with rfl | hp
-      · exact ⟨k, by simp only [List.length_cons]; omega, rfl⟩
-      · obtain ⟨j, hj, e⟩ := ih (k + 1) p hp
-        exact ⟨j, by simp only [List.length_cons]; omega, e⟩
+theorem dedupLast_mem_of_last (pre post : List (Int × α)) (d : Int) (v : α)
+    (hpost : ∀ q ∈ post, q.1 ≠ d) : (d, v) ∈ dedupLast (pre ++ (d, v) :: post) :=
+  (dedupLast_mem_iff _ d v).mpr ⟨pre, post, rfl, hpost⟩
 
-/-- **gw_variable_between** (series form): if the placed series has an observation `va`, then `m`
-missing days, then an observation `vb`, the `t`-th missing day (0-based) gets the value on the
-straight line in the *index position*: `va + (vb − va)·(t+1)/(m+1)`. -/
-theorem fillGaps_between (s1 s2 : List (Option α)) (va vb : α) (m t : Nat) (ht : t < m) :
-    (fillGaps (validPts 0 (s1 ++ some va :: (List.replicate m none ++ some vb :: s2))) 0 false
-        (s1 ++ some va :: (List.replicate m none ++ some vb :: s2)))[s1.length + 1 + t]? =
-      some (some ((vb - va) / ((m : α) + 1) * ((t : α) + 1) + va)) := by
-  set s := s1 ++ some va :: (List.replicate m none ++ some vb :: s2) with hs
-  have hget : s[s1.length + 1 + t]? = some none := by
-    rw [hs, List.getElem?_append_right (by omega)]
-    have : s1.length + 1 + t - s1.length = t + 1 := by omega
-    rw [this, List.getElem?_cons_succ, List.getElem?_append_left (by simpa using ht)]
-    simp [ht]
-  have hprev : ∃ j, j < s1.length + 1 + t ∧ ∃ v, s[j]? = some (some v) :=
-    ⟨s1.length, by omega, va, by rw [hs]; simp⟩
-  rw [fillGaps_gap _ 0 false s _ hget (Or.inr hprev)]
-  have hv : validPts 0 s = validPts 0 s1 ++
-      ((s1.length : α), va) :: (((s1.length + 1 + m : Nat) : α), vb) ::
-        validPts (s1.length + 1 + m + 1) s2 := by
-    rw [hs, validPts_append]
-    simp only [Nat.zero_add, validPts]
-    rw [validPts_append, validPts_nones]
-    simp only [List.nil_append, List.length_replicate, validPts]
-  rw [hv]
-  have hpre : ∀ p ∈ validPts 0 s1, p.1 ≤ (((0 + (s1.length + 1 + t) : Nat)) : α) := by
-    intro p hp
-    obtain ⟨j, hj, e⟩ := validPts_pos 0 s1 p hp
-    rw [e]; exact_mod_cast (by omega : j ≤ 0 + (s1.length + 1 + t))
-  rw [interp_between _ _ _ ((s1.length : α), va) (((s1.length + 1 + m : Nat) : α), vb) hpre
-    (by simp only; exact_mod_cast (by omega : s1.length ≤ 0 + (s1.length + 1 + t)))
-    (by simp only; exact_mod_cast (by omega : 0 + (s1.length + 1 + t) < s1.length + 1 + m))]
-  have hnot : ¬ ((((0 + (s1.length + 1 + t) : Nat)) : α) ≤ (s1.length : α)) := by
-    rw [not_le]; exact_mod_cast (by omega : s1.length < 0 + (s1.length + 1 + t))
-  simp only [hnot, if_false]
-  congr 2
+/-- a table whose dates are already distinct is left alone. -/
+theorem dedupLast_of_distinct (obs : List (Int × α)) (h : obs.Pairwise (fun a b => a.1 ≠ b.1)) :
+    dedupLast obs = obs := by
+  induction obs with
+  | nil => rfl
+  | cons p rest ih =>
+    obtain ⟨d, v⟩ := p
+    obtain ⟨h1, h2⟩ := List.pairwise_cons.mp h
+    have hany : ¬ (rest.any (fun q => decide (q.1 = d)) = true) := by
+      intro hany
+      obtain ⟨r, hr, hrd⟩ := List.any_eq_true.mp hany
+      have hrd' : r.1 = d := by simpa using hrd
+      exact h1 r hr hrd'.symm
+    simp only [dedupLast, hany, if_false, Bool.false_eq_true, ih h2]
+
+/-! ### `sortByDate` -/
+
+theorem insertByDate_perm (p : Int × α) (l : List (Int × α)) :
+    (insertByDate p l).Perm (p :: l) := by
+  induction l with
+  | nil => exact List.Perm.refl _
+  | cons q qs ih =>
+    unfold insertByDate
+    split
+    · exact List.Perm.refl _
+    · exact ((List.Perm.cons q ih).trans (List.Perm.swap p q qs))
+
+/-- `sortByDate` only reorders the rows. -/
+theorem sortByDate_perm (l : List (Int × α)) : (sortByDate l).Perm l := by
+  induction l with
+  | nil => exact List.Perm.refl _
+  | cons p ps ih =>
+    show (insertByDate p (sortByDate ps)).Perm (p :: ps)
+    exact (insertByDate_perm p _).trans (List.Perm.cons p ih)
+
+theorem sortByDate_mem (l : List (Int × α)) (q : Int × α) : q ∈ sortByDate l ↔ q ∈ l :=
+  (sortByDate_perm l).mem_iff
+
+theorem insertByDate_sorted (p : Int × α) (l : List (Int × α))
+    (h : l.Pairwise (fun a b => a.1 ≤ b.1)) :
+    (insertByDate p l).Pairwise (fun a b => a.1 ≤ b.1) := by
+  induction l with
+  | nil => simp [insertByDate]
+  | cons q qs ih =>
+    obtain ⟨h1, h2⟩ := List.pairwise_cons.mp h
+    unfold insertByDate
+    split
+    · rename_i hpq
+      refine List.pairwise_cons.mpr ⟨?_, h⟩
+      intro r hr
+      rcases List.mem_cons.mp hr with rfl | hr
+      · exact hpq
+      · exact Int.le_trans hpq (h1 r hr)
+    · rename_i hpq
+      refine List.pairwise_cons.mpr ⟨?_, ih h2⟩
+      intro r hr
+      rcases List.mem_cons.mp ((insertByDate_perm p qs).mem_iff.mp hr) with rfl | hr
+      · omega
+      · exact h1 r hr
+
+/-- the result of `sortByDate` is in date order. -/
+theorem sortByDate_sorted (l : List (Int × α)) :
+    (sortByDate l).Pairwise (fun a b => a.1 ≤ b.1) := by
+  induction l with
+  | nil => simp [sortByDate]
+  | cons p ps ih => exact insertByDate_sorted p _ ih
+
+/-- with distinct dates the result of `sortByDate` is strictly increasing in date. -/
+theorem sortByDate_strict (l : List (Int × α)) (h : l.Pairwise (fun a b => a.1 ≠ b.1)) :
+    (sortByDate l).Pairwise (fun a b => a.1 < b.1) := by
+  have hne : (sortByDate l).Pairwise (fun a b => a.1 ≠ b.1) :=
+    ((sortByDate_perm l).pairwise_iff (fun {x y} (hxy : x.1 ≠ y.1) => hxy.symm)).mpr h
+  exact ((sortByDate_sorted l).and hne).imp (fun {a b} hab => by omega)
+
+/-- the interpolation points of the "Variable" series are strictly increasing in date. -/
+theorem gwPts_strict (obs : List (Int × α)) :
+    (sortByDate (dedupLast obs)).Pairwise (fun a b => a.1 < b.1) :=
+  sortByDate_strict _ (dedupLast_pairwise obs)
+
+/-- a strictly date-increasing list is its own sort. -/
+theorem sortByDate_of_strict (l : List (Int × α)) (h : l.Pairwise (fun a b => a.1 < b.1)) :
+    sortByDate l = l := by
+  refine List.Perm.eq_of_pairwise (le := fun a b => a.1 < b.1) ?_
+    (sortByDate_strict l (h.imp (fun {a b} hab => by omega))) h (sortByDate_perm l)
+  intro a b _ _ h1 h2; omega
+
+/-- the interpolation points do not depend on the order of the rows of a table with distinct
+dates. -/
+theorem sortByDate_perm_eq (l l' : List (Int × α)) (hp : l.Perm l')
+    (h : l.Pairwise (fun a b => a.1 ≠ b.1)) : sortByDate l = sortByDate l' := by
+  have h' : l'.Pairwise (fun a b => a.1 ≠ b.1) :=
+    (hp.pairwise_iff (fun {x y} (hxy : x.1 ≠ y.1) => hxy.symm)).mp h
+  refine List.Perm.eq_of_pairwise (le := fun a b => a.1 < b.1) ?_
+    (sortByDate_strict l h) (sortByDate_strict l' h')
+    ((sortByDate_perm l).trans (hp.trans (sortByDate_perm l').symm))
+  intro a b _ _ h1 h2; omega
+
+/-! ### `gwVarGo` / `gwVarAt` on a strictly date-increasing list -/
+
+/-- the model's `Nat` cast of a non-negative day difference is the `Int` cast. -/
+theorem natCast_toNat (x : Int) (h : 0 ≤ x) : ((x.toNat : Nat) : α) = ((x : Int) : α) := by
+  rw [← Int.cast_natCast, Int.toNat_of_nonneg h]
+
+/-- rows dated on or before `i` are walked over. -/
+theorem gwVarGo_skip (i : Int) (lo p : Int × α) (pre rest : List (Int × α))
+    (hpre : ∀ q ∈ pre, q.1 ≤ i) (hp : p.1 ≤ i) :
+    gwVarGo i lo (pre ++ p :: rest) = gwVarGo i p rest := by
+  induction pre generalizing lo with
+  | nil => simp only [List.nil_append, gwVarGo, hp, if_true]
+  | cons q qs ih =>
+    have hq : q.1 ≤ i := hpre q List.mem_cons_self
+    simp only [List.cons_append, gwVarGo, hq, if_true]
+    exact ih q (fun r hr => hpre r (List.mem_cons_of_mem _ hr))
+
+/-- the straight line through `lo` and the next row, when that row is dated after `i`. -/
+theorem gwVarGo_line (i : Int) (lo p : Int × α) (ps : List (Int × α)) (hlo : lo.1 ≤ i)
+    (hp : i < p.1) :
+    gwVarGo i lo (p :: ps) =
+      (p.2 - lo.2) / ((p.1 - lo.1 : Int) : α) * ((i - lo.1 : Int) : α) + lo.2 := by
+  have h : ¬ (p.1 ≤ i) := by omega
+  simp only [gwVarGo, h, if_false]
+  rw [natCast_toNat _ (by omega), natCast_toNat _ (by omega)]
+
+theorem gwVarAt_nil (i : Int) : gwVarAt i ([] : List (Int × α)) = none := rfl
+
+/-- **`NaN` before the first observation.** -/
+theorem gwVarAt_before_first (i : Int) (p : Int × α) (ps : List (Int × α)) (h : i < p.1) :
+    gwVarAt i (p :: ps) = none := by
+  simp only [gwVarAt, h, if_true]
+
+/-- a value exactly from the first observation's date on. -/
+theorem gwVarAt_isSome_iff (i : Int) (p : Int × α) (ps : List (Int × α)) :
+    (gwVarAt i (p :: ps)).isSome = true ↔ p.1 ≤ i := by
+  by_cases h : i < p.1
+  · simp only [gwVarAt, h, if_true, Option.isSome_none, Bool.false_eq_true, false_iff]; omega
+  · simp only [gwVarAt, h, if_false, Option.isSome_some, true_iff]; omega
+
+theorem gwVarAt_eq_none_iff (i : Int) (p : Int × α) (ps : List (Int × α)) :
+    gwVarAt i (p :: ps) = none ↔ i < p.1 := by
+  by_cases h : i < p.1
+  · simp [gwVarAt, h]
+  · simp [gwVarAt, h]
+
+/-- from the date of a row on, the walk restarts at that row. -/
+theorem gwVarAt_split (i : Int) (pre rest : List (Int × α)) (p : Int × α)
+    (hs : (pre ++ p :: rest).Pairwise (fun a b => a.1 < b.1)) (hp : p.1 ≤ i) :
+    gwVarAt i (pre ++ p :: rest) = some (gwVarGo i p rest) := by
+  have hlt : ∀ q ∈ pre, q.1 < p.1 := fun q hq =>
+    (List.pairwise_append.mp hs).2.2 q hq p List.mem_cons_self
+  cases pre with
+  | nil =>
+    have h : ¬ (i < p.1) := by omega
+    simp only [List.nil_append, gwVarAt, h, if_false]
+  | cons q qs =>
+    have hq := hlt q List.mem_cons_self
+    have h : ¬ (i < q.1) := by omega
+    simp only [List.cons_append, gwVarAt, h, if_false]
+    rw [gwVarGo_skip i q p qs rest
+      (fun r hr => by have := hlt r (List.mem_cons_of_mem _ hr); omega) hp]
+
+/-- **exactly the observed depth on an observation date.** -/
+theorem gwVarAt_at_obs (pre post : List (Int × α)) (d : Int) (v : α)
+    (hs : (pre ++ (d, v) :: post).Pairwise (fun a b => a.1 < b.1)) :
+    gwVarAt d (pre ++ (d, v) :: post) = some v := by
+  rw [gwVarAt_split d pre post (d, v) hs (Int.le_refl d)]
+  cases post with
+  | nil => rfl
+  | cons p ps =>
+    have hp : d < p.1 :=
+      (List.pairwise_cons.mp (List.pairwise_append.mp hs).2.1).1 p List.mem_cons_self
+    rw [gwVarGo_line d (d, v) p ps (Int.le_refl d) hp]
+    simp
+
+/-- **on the straight line in time between two neighbouring observations.** -/
+theorem gwVarAt_between (i : Int) (pre post : List (Int × α)) (d0 d1 : Int) (v0 v1 : α)
+    (hs : (pre ++ (d0, v0) :: (d1, v1) :: post).Pairwise (fun a b => a.1 < b.1))
+    (h0 : d0 ≤ i) (h1 : i < d1) :
+    gwVarAt i (pre ++ (d0, v0) :: (d1, v1) :: post) =
+      some ((v1 - v0) / ((d1 - d0 : Int) : α) * ((i - d0 : Int) : α) + v0) := by
+  rw [gwVarAt_split i pre _ (d0, v0) hs h0, gwVarGo_line i (d0, v0) (d1, v1) post h0 h1]
+
+/-- the same line written with the time fraction `(i − d0)/(d1 − d0)`. -/
+theorem gw_line_eq (i d0 d1 : Int) (v0 v1 : α) (h : d0 < d1) :
+    (v1 - v0) / ((d1 - d0 : Int) : α) * ((i - d0 : Int) : α) + v0 =
+      v0 + ((i : α) - (d0 : α)) / ((d1 : α) - (d0 : α)) * (v1 - v0) := by
+  have hd : ((d1 : α) - (d0 : α)) ≠ 0 := by
+    have : (d0 : α) < (d1 : α) := by exact_mod_cast h
+    exact ne_of_gt (by linarith)
   push_cast
-  have h1 : ((s1.length : α) + 1 + (m : α) - (s1.length : α)) = (m : α) + 1 := by ring
-  have h2 : ((0 : α) + ((s1.length : α) + 1 + (t : α)) - (s1.length : α)) = (t : α) + 1 := by ring
-  rw [h1, h2]
+  field_simp
+  ring
 
-theorem setAt_length (k : Nat) (v : α) (base : List (Option α)) :
-    (setAt k v base).length = base.length := by
-  induction base generalizing k with
-  | nil => cases k <;> simp [setAt]
-  | cons x xs ih => cases k <;> simp [setAt, ih]
+/-- the interpolated depth lies between the two neighbouring observed depths. -/
+theorem gw_line_bounds (i d0 d1 : Int) (v0 v1 : α) (h0 : d0 ≤ i) (h1 : i < d1) :
+    min v0 v1 ≤ (v1 - v0) / ((d1 - d0 : Int) : α) * ((i - d0 : Int) : α) + v0 ∧
+      (v1 - v0) / ((d1 - d0 : Int) : α) * ((i - d0 : Int) : α) + v0 ≤ max v0 v1 := by
+  have ha : ((d0 : Int) : α) ≤ ((i : Int) : α) := by exact_mod_cast h0
+  have hb : ((i : Int) : α) < ((d1 : Int) : α) := by exact_mod_cast h1
+  have := interp_between_bounds ((i : Int) : α) (((d0 : Int) : α), v0) (((d1 : Int) : α), v1) ha hb
+  simpa only [Int.cast_sub] using this
 
-theorem setAt_get (k : Nat) (v : α) (base : List (Option α)) (j : Nat) (hk : k < base.length) :
-    (setAt k v base)[j]? = if j = k then some (some v) else base[j]? := by
-  induction base generalizing k j with
-  | nil => simp at hk
-  | cons x xs ih =>
-    cases k with
-    | zero =>
-      cases j with
-      | zero => simp [setAt]
-      | succ j => simp [setAt]
-    | succ k =>
-      cases j with
-      | zero => simp [setAt]
-      | succ j =>
-        simp only [setAt, List.getElem?_cons_succ, ih k j (by simpa using hk)]
-        simp
+theorem gwVarAt_between_bounds (i : Int) (pre post : List (Int × α)) (d0 d1 : Int) (v0 v1 : α)
+    (hs : (pre ++ (d0, v0) :: (d1, v1) :: post).Pairwise (fun a b => a.1 < b.1))
+    (h0 : d0 ≤ i) (h1 : i < d1) :
+    ∃ z, gwVarAt i (pre ++ (d0, v0) :: (d1, v1) :: post) = some z ∧
+      min v0 v1 ≤ z ∧ z ≤ max v0 v1 :=
+  ⟨_, gwVarAt_between i pre post d0 d1 v0 v1 hs h0 h1, gw_line_bounds i d0 d1 v0 v1 h0 h1⟩
 
-theorem placeObs_length (n : Nat) (obs : List (Int × α)) (base : List (Option α))
-    (extra : List (Int × α)) : (placeObs n obs (base, extra)).1.length = base.length := by
-  induction obs generalizing base extra with
+/-- **the last depth from the last observation on.** -/
+theorem gwVarAt_after_last (i : Int) (pre : List (Int × α)) (d : Int) (v : α)
+    (hs : (pre ++ [(d, v)]).Pairwise (fun a b => a.1 < b.1)) (hd : d ≤ i) :
+    gwVarAt i (pre ++ [(d, v)]) = some v := by
+  rw [gwVarAt_split i pre [] (d, v) hs hd]; rfl
+
+/-- in a strictly date-increasing list two rows with no date strictly between them are
+neighbours. -/
+theorem adjacent_of_no_between (pts : List (Int × α)) (a b : Int × α)
+    (hs : pts.Pairwise (fun a b => a.1 < b.1)) (ha : a ∈ pts) (hb : b ∈ pts) (hab : a.1 < b.1)
+    (hno : ∀ q ∈ pts, ¬ (a.1 < q.1 ∧ q.1 < b.1)) :
+    ∃ pre post, pts = pre ++ a :: b :: post := by
+  obtain ⟨pre, rest, rfl⟩ := List.append_of_mem ha
+  obtain ⟨_, hrest, hcross⟩ := List.pairwise_append.mp hs
+  obtain ⟨harest, hrest'⟩ := List.pairwise_cons.mp hrest
+  have hbrest : b ∈ rest := by
+    rcases List.mem_append.mp hb with hb | hb
+    · have := hcross b hb a List.mem_cons_self; omega
+    · rcases List.mem_cons.mp hb with rfl | hb
+      · omega
+      · exact hb
+  cases rest with
+  | nil => simp at hbrest
+  | cons c post =>
+    have hac : a.1 < c.1 := harest c List.mem_cons_self
+    rcases List.mem_cons.mp hbrest with rfl | hbpost
+    · exact ⟨pre, post, rfl⟩
+    · have hcb : c.1 < b.1 := (List.pairwise_cons.mp hrest').1 b hbpost
+      exact absurd ⟨hac, hcb⟩
+        (hno c (List.mem_append_right _ (List.mem_cons_of_mem _ List.mem_cons_self)))
+
+/-! ### shift invariance -/
+
+/-- moving every date by `k` days -/
+def shiftDates (k : Int) (l : List (Int × α)) : List (Int × α) := l.map (fun q => (q.1 + k, q.2))
+
+theorem gwVarGo_shift (i k : Int) (lo : Int × α) (ps : List (Int × α)) :
+    gwVarGo (i + k) (lo.1 + k, lo.2) (shiftDates k ps) = gwVarGo i lo ps := by
+  induction ps generalizing lo with
+  | nil => rfl
+  | cons p ps ih =>
+    simp only [shiftDates, List.map_cons, gwVarGo]
+    have e1 : (p.1 + k ≤ i + k) ↔ p.1 ≤ i := by omega
+    have e2 : p.1 + k - (lo.1 + k) = p.1 - lo.1 := by omega
+    have e3 : i + k - (lo.1 + k) = i - lo.1 := by omega
+    simp only [e1, e2, e3]
+    split
+    · exact ih p
+    · rfl
+
+/-- **shift invariance**: shifting all dates and the day by the same offset gives the same depth. -/
+theorem gwVarAt_shift (i k : Int) (pts : List (Int × α)) :
+    gwVarAt (i + k) (shiftDates k pts) = gwVarAt i pts := by
+  cases pts with
+  | nil => rfl
+  | cons p ps =>
+    simp only [shiftDates, List.map_cons, gwVarAt]
+    have e1 : (i + k < p.1 + k) ↔ i < p.1 := by omega
+    simp only [e1]
+    split
+    · rfl
+    · exact congrArg some (gwVarGo_shift i k p ps)
+
+theorem dedupLast_shift (k : Int) (obs : List (Int × α)) :
+    dedupLast (shiftDates k obs) = shiftDates k (dedupLast obs) := by
+  induction obs with
+  | nil => rfl
+  | cons p rest ih =>
+    have hany : (shiftDates k rest).any (fun q => decide (q.1 = p.1 + k)) =
+        rest.any (fun q => decide (q.1 = p.1)) := by
+      simp only [shiftDates, List.any_map]
+      congr 1
+      funext q
+      simp only [Function.comp]
+      by_cases h : q.1 = p.1
+      · simp [h]
+      · have : ¬ (q.1 + k = p.1 + k) := by omega
+        simp [h, this]
+    have ih' : dedupLast (List.map (fun q => (q.1 + k, q.2)) rest) =
+        shiftDates k (dedupLast rest) := ih
+    simp only [shiftDates] at hany
+    simp only [shiftDates, List.map_cons, dedupLast, hany, ih']
+    split <;> simp
+
+theorem insertByDate_shift (k : Int) (p : Int × α) (l : List (Int × α)) :
+    insertByDate (p.1 + k, p.2) (shiftDates k l) = shiftDates k (insertByDate p l) := by
+  induction l with
   | nil => rfl
   | cons q qs ih =>
-    obtain ⟨d, v⟩ := q
-    simp only [placeObs]
-    split
-    · rw [ih, setAt_length]
-    · rw [ih]
+    have e : (p.1 + k ≤ q.1 + k) ↔ p.1 ≤ q.1 := by omega
+    have ih' : insertByDate (p.1 + k, p.2) (List.map (fun q => (q.1 + k, q.2)) qs) =
+        shiftDates k (insertByDate p qs) := ih
+    simp only [shiftDates, List.map_cons, insertByDate, e, ih']
+    split <;> simp
 
-theorem placeObs_other (n : Nat) (obs : List (Int × α)) (base : List (Option α))
-    (extra : List (Int × α)) (j : Nat) (hlen : base.length = n)
-    (h : ∀ q ∈ obs, q.1 ≠ Int.ofNat j) :
-    (placeObs n obs (base, extra)).1[j]? = base[j]? := by
-  induction obs generalizing base extra with
+theorem sortByDate_shift (k : Int) (l : List (Int × α)) :
+    sortByDate (shiftDates k l) = shiftDates k (sortByDate l) := by
+  induction l with
   | nil => rfl
-  | cons q qs ih =>
-    obtain ⟨d, v⟩ := q
-    have hq : d ≠ Int.ofNat j := h (d, v) (by simp)
-    simp only [placeObs]
-    split
-    · rename_i hr
-      rw [ih _ _ (by rw [setAt_length, hlen]) (fun q hq' => h q (List.mem_cons_of_mem _ hq'))]
-      rw [setAt_get _ _ _ _ (by omega)]
-      have : j ≠ d.toNat := by
-        intro e; apply hq; rw [e]; exact (Int.toNat_of_nonneg hr.1).symm
-      simp [this]
-    · exact ih _ _ hlen (fun q hq' => h q (List.mem_cons_of_mem _ hq'))
+  | cons p ps ih =>
+    show insertByDate (p.1 + k, p.2) (sortByDate (shiftDates k ps)) =
+      shiftDates k (insertByDate p (sortByDate ps))
+    rw [ih, insertByDate_shift]
+
+/-! ### the series -/
+
+theorem gwVariable_length (n : Nat) (obs : List (Int × α)) : (gwVariable n obs).length = n := by
+  simp [gwVariable]
+
+theorem gwVariable_getElem (n : Nat) (obs : List (Int × α)) (i : Nat) (h : i < n) :
+    (gwVariable n obs)[i]? = some (gwVarAt (Int.ofNat i) (sortByDate (dedupLast obs))) := by
+  simp [gwVariable, h]
+
+/-- **independence of the window**: extending (or shortening) the simulation does not change the
+series on the days covered by both. -/
+theorem gw_variable_window_independent (n m : Nat) (obs : List (Int × α)) (i : Nat) (hn : i < n)
+    (hm : i < m) : (gwVariable n obs)[i]? = (gwVariable m obs)[i]? := by
+  rw [gwVariable_getElem n obs i hn, gwVariable_getElem m obs i hm]
+
+/-- … as lists: the shorter series is a prefix of the longer one. -/
+theorem gw_variable_take (n m : Nat) (obs : List (Int × α)) (h : n ≤ m) :
+    (gwVariable m obs).take n = gwVariable n obs := by
+  apply List.ext_getElem?
+  intro i
+  by_cases hi : i < n
+  · rw [List.getElem?_take_of_lt hi]
+    exact gw_variable_window_independent m n obs i (by omega) hi
+  · rw [List.getElem?_eq_none (by rw [List.length_take, gwVariable_length]; omega),
+      List.getElem?_eq_none (by rw [gwVariable_length]; omega)]
 
 /-- **gw_variable_at_obs**: on an observation day inside the simulation the series has exactly the
 observed depth (of the last row carrying that date). -/
 theorem gw_variable_at_obs (n : Nat) (pre post : List (Int × α)) (d : Nat) (v : α) (hd : d < n)
     (hpost : ∀ q ∈ post, q.1 ≠ Int.ofNat d) :
     (gwVariable n (pre ++ (Int.ofNat d, v) :: post))[d]? = some (some v) := by
+  rw [gwVariable_getElem n _ d hd]
+  have hm := (sortByDate_mem _ _).mpr (dedupLast_mem_of_last pre post (Int.ofNat d) v hpost)
+  obtain ⟨s, t, e⟩ := List.append_of_mem hm
+  have hs := gwPts_strict (pre ++ (Int.ofNat d, v) :: post)
+  rw [e] at hs ⊢
+  rw [gwVarAt_at_obs s t (Int.ofNat d) v hs]
+
+/-- **between two consecutive observations** (rows kept by `dedupLast`; no observation date strictly
+between `d0` and `d1`), for a simulation day `i` with `d0 ≤ i < d1`: the depth is on the straight
+line in time through the two — wherever `d0` and `d1` lie relative to the simulated period. -/
+theorem gw_variable_between_of_mem (n : Nat) (obs : List (Int × α)) (d0 d1 : Int) (v0 v1 : α)
+    (i : Nat) (hi : i < n) (hm0 : (d0, v0) ∈ dedupLast obs) (hm1 : (d1, v1) ∈ dedupLast obs)
+    (hno : ∀ q ∈ obs, ¬ (d0 < q.1 ∧ q.1 < d1)) (h0 : d0 ≤ Int.ofNat i) (h1 : Int.ofNat i < d1) :
+    (gwVariable n obs)[i]? =
+      some (some ((v1 - v0) / ((d1 - d0 : Int) : α) * ((Int.ofNat i - d0 : Int) : α) + v0)) := by
+  rw [gwVariable_getElem n _ i hi]
+  have hs := gwPts_strict obs
+  obtain ⟨pre, post, e⟩ := adjacent_of_no_between (sortByDate (dedupLast obs)) (d0, v0) (d1, v1) hs
+    ((sortByDate_mem _ _).mpr hm0) ((sortByDate_mem _ _).mpr hm1) (by show d0 < d1; omega)
+    (fun q hq => hno q (dedupLast_subset obs q ((sortByDate_mem _ _).mp hq)))
+  rw [e] at hs ⊢
+  rw [gwVarAt_between (Int.ofNat i) pre post d0 d1 v0 v1 hs h0 h1]
+
+/-- the same with the two rows given by their position in the table (each being the last row of
+its date). -/
+theorem gw_variable_between (n : Nat) (obs pre0 post0 pre1 post1 : List (Int × α)) (d0 d1 : Int)
+    (v0 v1 : α) (i : Nat) (hi : i < n)
+    (e0 : obs = pre0 ++ (d0, v0) :: post0) (hpost0 : ∀ q ∈ post0, q.1 ≠ d0)
+    (e1 : obs = pre1 ++ (d1, v1) :: post1) (hpost1 : ∀ q ∈ post1, q.1 ≠ d1)
+    (hno : ∀ q ∈ obs, ¬ (d0 < q.1 ∧ q.1 < d1)) (h0 : d0 ≤ Int.ofNat i) (h1 : Int.ofNat i < d1) :
+    (gwVariable n obs)[i]? =
+      some (some ((v1 - v0) / ((d1 - d0 : Int) : α) * ((Int.ofNat i - d0 : Int) : α) + v0)) :=
+  gw_variable_between_of_mem n obs d0 d1 v0 v1 i hi
+    ((dedupLast_mem_iff obs d0 v0).mpr ⟨pre0, post0, e0, hpost0⟩)
+    ((dedupLast_mem_iff obs d1 v1).mpr ⟨pre1, post1, e1, hpost1⟩) hno h0 h1
+
+/-- … and that depth lies between the two observed depths. -/
+theorem gw_variable_between_bounds (n : Nat) (obs pre0 post0 pre1 post1 : List (Int × α))
+    (d0 d1 : Int) (v0 v1 : α) (i : Nat) (hi : i < n)
+    (e0 : obs = pre0 ++ (d0, v0) :: post0) (hpost0 : ∀ q ∈ post0, q.1 ≠ d0)
+    (e1 : obs = pre1 ++ (d1, v1) :: post1) (hpost1 : ∀ q ∈ post1, q.1 ≠ d1)
+    (hno : ∀ q ∈ obs, ¬ (d0 < q.1 ∧ q.1 < d1)) (h0 : d0 ≤ Int.ofNat i) (h1 : Int.ofNat i < d1) :
+    ∃ z, (gwVariable n obs)[i]? = some (some z) ∧ min v0 v1 ≤ z ∧ z ≤ max v0 v1 :=
+  ⟨_, gw_variable_between n obs pre0 post0 pre1 post1 d0 d1 v0 v1 i hi e0 hpost0 e1 hpost1 hno h0 h1,
+    gw_line_bounds (Int.ofNat i) d0 d1 v0 v1 h0 h1⟩
+
+/-- **`NaN` exactly before the first observation**: day `i` has a depth iff some observation is
+dated on or before it. -/
+theorem gw_variable_isSome_iff (n : Nat) (obs : List (Int × α)) (i : Nat) (hi : i < n) :
+    (∃ z, (gwVariable n obs)[i]? = some (some z)) ↔ ∃ q ∈ obs, q.1 ≤ Int.ofNat i := by
+  rw [gwVariable_getElem n _ i hi]
+  have hs := gwPts_strict obs
+  cases hpts : sortByDate (dedupLast obs) with
+  | nil =>
+    constructor
+    · rintro ⟨z, hz⟩; simp [gwVarAt] at hz
+    · rintro ⟨q, hq, _⟩
+      obtain ⟨q', hq', _⟩ := dedupLast_date_mem obs q hq
+      have := (sortByDate_mem _ _).mpr hq'
+      rw [hpts] at this; simp at this
+  | cons p ps =>
+    rw [hpts] at hs
+    have hp : p ∈ obs := dedupLast_subset obs p ((sortByDate_mem _ _).mp (by rw [hpts]; simp))
+    constructor
+    · rintro ⟨z, hz⟩
+      refine ⟨p, hp, ?_⟩
+      have : (gwVarAt (Int.ofNat i) (p :: ps)).isSome = true := by
+        simp only [Option.some.injEq] at hz; rw [hz]; rfl
+      exact (gwVarAt_isSome_iff _ p ps).mp this
+    · rintro ⟨q, hq, hqi⟩
+      obtain ⟨q', hq', e'⟩ := dedupLast_date_mem obs q hq
+      have hq'' : q' ∈ p :: ps := by rw [← hpts]; exact (sortByDate_mem _ _).mpr hq'
+      have hpq : p.1 ≤ q'.1 := by
+        rcases List.mem_cons.mp hq'' with rfl | h
+        · exact Int.le_refl _
+        · exact Int.le_of_lt ((List.pairwise_cons.mp hs).1 q' h)
+      have hpi : p.1 ≤ Int.ofNat i := by omega
+      have hsome := (gwVarAt_isSome_iff (Int.ofNat i) p ps).mpr hpi
+      obtain ⟨z, hz⟩ := Option.isSome_iff_exists.mp hsome
+      exact ⟨z, by rw [hz]⟩
+
+/-- `NaN` on every simulation day before the first observation. -/
+theorem gw_variable_before_first (n : Nat) (obs : List (Int × α)) (i : Nat) (hi : i < n)
+    (h : ∀ q ∈ obs, Int.ofNat i < q.1) : (gwVariable n obs)[i]? = some none := by
+  have hnot : ¬ ∃ z, (gwVariable n obs)[i]? = some (some z) := by
+    rw [gw_variable_isSome_iff n obs i hi]
+    rintro ⟨q, hq, hqi⟩
+    have := h q hq; omega
+  rw [gwVariable_getElem n _ i hi] at hnot ⊢
+  cases hv : gwVarAt (Int.ofNat i) (sortByDate (dedupLast obs)) with
+  | none => rfl
+  | some z => exact absurd ⟨z, by rw [hv]⟩ hnot
+
+/-- **the last depth after the last observation**: from the latest observation date on, the series
+holds the depth of (the last row of) that date. -/
+theorem gw_variable_after_last (n : Nat) (pre post : List (Int × α)) (d : Int) (v : α) (i : Nat)
+    (hi : i < n) (hpost : ∀ q ∈ post, q.1 ≠ d)
+    (hlast : ∀ q ∈ pre ++ (d, v) :: post, q.1 ≤ d) (hd : d ≤ Int.ofNat i) :
+    (gwVariable n (pre ++ (d, v) :: post))[i]? = some (some v) := by
+  rw [gwVariable_getElem n _ i hi]
+  have hm := (sortByDate_mem _ _).mpr (dedupLast_mem_of_last pre post d v hpost)
+  obtain ⟨s, t, e⟩ := List.append_of_mem hm
+  have hs := gwPts_strict (pre ++ (d, v) :: post)
+  have ht : t = [] := by
+    cases t with
+    | nil => rfl
+    | cons c t' =>
+      exfalso
+      have hc : c ∈ sortByDate (dedupLast (pre ++ (d, v) :: post)) := by rw [e]; simp
+      have hc' := hlast c (dedupLast_subset _ c ((sortByDate_mem _ _).mp hc))
+      rw [e] at hs
+      have : d < c.1 :=
+        (List.pairwise_cons.mp (List.pairwise_append.mp hs).2.1).1 c List.mem_cons_self
+      omega
+  subst ht
+  rw [e] at hs ⊢
+  rw [gwVarAt_after_last (Int.ofNat i) s d v hs hd]
+
+/-- **the order of the rows does not matter** for a table with distinct dates. -/
+theorem gw_variable_perm (n : Nat) (obs obs' : List (Int × α)) (hp : obs.Perm obs')
+    (h : obs.Pairwise (fun a b => a.1 ≠ b.1)) : gwVariable n obs = gwVariable n obs' := by
+  have h' : obs'.Pairwise (fun a b => a.1 ≠ b.1) :=
+    (hp.pairwise_iff (fun {x y} (hxy : x.1 ≠ y.1) => hxy.symm)).mp h
   unfold gwVariable
-  simp only []
-  apply fillGaps_some
-  -- the placed series
-  have key : ∀ (pre : List (Int × α)) (base : List (Option α)) (extra : List (Int × α)),
-      base.length = n →
-      (placeObs n (pre ++ (Int.ofNat d, v) :: post) (base, extra)).1[d]? = some (some v) := by
-    intro pre
-    induction pre with
-    | nil =>
-      intro base extra hlen
-      have hr : (0 : Int) ≤ Int.ofNat d ∧ Int.ofNat d < (n : Int) := ⟨by simp, by simpa using hd⟩
-      simp only [List.nil_append, placeObs, hr, and_self, if_true]
-      rw [placeObs_other n post _ extra d (by rw [setAt_length, hlen]) hpost]
-      rw [setAt_get _ _ _ _ (by simp; omega)]
-      simp
-    | cons q qs ih =>
-      intro base extra hlen
-      obtain ⟨d', v'⟩ := q
-      simp only [List.cons_append, placeObs]
-      split
-      · exact ih _ _ (by rw [setAt_length, hlen])
-      · exact ih _ _ hlen
-  have hl := placeObs_length n (pre ++ (Int.ofNat d, v) :: post) (List.replicate n none) []
-  rw [List.getElem?_append_left (by rw [hl]; simpa using hd)]
-  exact key pre _ _ (by simp)
+  simp only [dedupLast_of_distinct obs h, dedupLast_of_distinct obs' h',
+    sortByDate_perm_eq obs obs' hp h]
+
+/-- **shift invariance of the series**: if the simulation starts `k` days later (all observation
+dates, counted from the start, decrease by `k`), the series is the old one from day `k` on. -/
+theorem gw_variable_shift (n k : Nat) (obs : List (Int × α)) (i : Nat) (hi : i < n) :
+    (gwVariable n (shiftDates (-(k : Int)) obs))[i]? = (gwVariable (n + k) obs)[i + k]? := by
+  rw [gwVariable_getElem n _ i hi, gwVariable_getElem (n + k) _ (i + k) (by omega)]
+  rw [dedupLast_shift, sortByDate_shift]
+  have e : Int.ofNat i = Int.ofNat (i + k) + (-(k : Int)) := by
+    simp only [Int.ofNat_eq_natCast, Int.natCast_add]; omega
+  rw [e, gwVarAt_shift]
 
 /-! ## Non-vacuity (concrete series over ℚ) -/
 
 /-- observations on day 1 (1 m) and day 3 (2 m) of a 5-day run: `NaN` on day 0, linear on day 2,
 last value held on day 4. -/
-example : gwVariable 5 [((1 : Int), (1 : ℚ)), (3, 2)] = [none, some 1, some (3 / 2), some 2, some 2] := by
-  have h3 : Int.toNat 3 = 3 := rfl
-  have h1 : Int.toNat 1 = 1 := rfl
-  norm_num [gwVariable, placeObs, setAt, List.replicate, fillGaps, validPts, interp, interpGo, h3, h1]
+example : gwVariable 5 [((1 : Int), (1 : ℚ)), (3, 2)] =
+    [none, some 1, some (3 / 2), some 2, some 2] := by
+  decide +kernel
 
-/-- an observation dated before the start is appended *after the last day* (series of length 4
-for a 3-day run) — the defect described in `Model/GwSeries.lean`. -/
-example : gwVariable 3 [((-2 : Int), (1 : ℚ)), (1, 2)] = [none, some 2, some (3 / 2), some 1] := by
-  have h1 : Int.toNat 1 = 1 := rfl
-  norm_num [gwVariable, placeObs, setAt, setExtra, List.replicate, fillGaps, validPts, interp,
-    interpGo, h1]
+/-- one observation 10 days before the start, one on day 5, one 9 days after the last day of an
+11-day run: straight lines in time through all three. -/
+example : gwVariable 11 [((-10 : Int), (1 : ℚ)), (5, 5/2), (20, 4)] =
+    [some 2, some (21/10), some (11/5), some (23/10), some (12/5), some (5/2), some (13/5),
+     some (27/10), some (14/5), some (29/10), some 3] := by
+  decide +kernel
+
+/-- `NaN` before the first observation, the last depth after the last one. -/
+example : gwVariable 11 [((3 : Int), (1 : ℚ)), (7, 2)] =
+    [none, none, none, some 1, some (5/4), some (3/2), some (7/4), some 2, some 2, some 2,
+     some 2] := by
+  decide +kernel
+
+/-- rows out of date order and a repeated date (the later row, 3 m, wins). -/
+example : gwVariable 5 [((4 : Int), (3 : ℚ)), (0, 1), (4, 2), (2, 5), (2, 3)] =
+    [some 1, some 2, some 3, some (5/2), some 2] := by
+  decide +kernel
+
+/-- the hypotheses of `gw_variable_between` are satisfiable with `d0 < 0` and `d1 ≥ n`. -/
+example : (gwVariable 3 [((7 : Int), (4 : ℚ)), (-2, 1)])[1]? =
+    some (some ((4 - 1) / ((7 - (-2) : Int) : ℚ) * ((Int.ofNat 1 - (-2) : Int) : ℚ) + 1)) :=
+  gw_variable_between 3 _ [((7 : Int), (4 : ℚ))] [] [] [((-2 : Int), (1 : ℚ))] (-2) 7 1 4 1
+    (by decide) rfl (by simp) rfl (by simp) (by simp) (by decide) (by decide)
 
 example : gwConstant 4 [((1 : Int), (1 : ℚ)), (3, 2)] = [some 1, some 1, some 1, some 2] := by
   simp [gwConstant, List.range, List.range.loop, gwConstAt]
